@@ -9,9 +9,9 @@ ASSUME = [
     "datasets the configuration does not use have zero records (/WakePotential without impedance); /RFKicks is per step and belongs to C19",
     "projections/moments use the quadrature the code base defines (Simpson weights delta/3*(1,4,2,...,1); moments by rectangle rule over the profile, normalised by the Simpson integral), evaluated by numpy in double on the *true* grid coordinates min+i*delta of the respective axis",
     "at a record whose step renormalises the charge (RenormalizeCharge=n, step % n == 0) the program takes the position profile before and saves the grid after the rescaling: the oracle applies the exact factor share/population and requires 2e-5 then; if the raw comparison fails there, that is reported under its own key",
-    "records whose profile has no positive second moment (diverged run) are skipped for the width comparison and counted",
+    "moment tolerances follow a single-precision accumulation model (2e-5 of max(extent, sum|terms|)); records of diverged runs (NaN, no positive variance, renormalisation factor off by more than 5%) are skipped for the affected comparison and counted",
     "wake reference: numpy FFT convolution of the stored profile with the stored impedance; absolute scale Ib*dt*c/(sigma_z*dE_cell)/N from independent formulas for sigma_z, f_s, dt; the bunch currents are taken from the invocation (the file does not store them)",
-    "CSR rows: spectrum_b*|F_0|^2 = spectrum_0*|F_b|^2 with F the oracle's FFT of the stored profiles (identifies the bunch independent of the radiation impedance); intensity = delta_f * sum(stored spectrum) within 2e-4 plus one bin of the size of the last stored ones (the top bin N/2 enters the intensity but is not stored)",
+    "CSR rows: spectrum_b*|F_0|^2 = spectrum_0*|F_b|^2 with F the oracle's FFT of the stored profiles (identifies the bunch independent of the radiation impedance); intensity = delta_f * sum(stored spectrum) plus the top bin N/2 (which enters the intensity but is not stored), estimated as last stored bin * |F_top|^2/|F_last|^2 from the oracle's FFT, within 2e-4 + 60% of that estimate",
 ]
 
 
